@@ -524,6 +524,82 @@ def t_builder(crate, prop):
     return run
 
 
+def t_builder_setters(crate):
+    """Each setter body from its MIR: the addressed slot becomes Some(arg) / gets arg pushed at the back,
+    every other slot is left untouched (term identity)."""
+    def run(prop, tier, seed):
+        q = Q()
+        res = {'violations': [], 'inconclusive': [], 'sample': {}}
+        eng = engine('dev')
+        slots = builder_slots(crate)
+        checked = []
+        for name, f in sorted(eng.fns.items()):
+            m = re.search(r'<impl at ' + re.escape(crate) + r'/src/builder\.rs:[^>]*>::(\w+)$', name)
+            if not m or len(f.args) != 2 or not f.ret.endswith('Builder'):
+                continue
+            setter = m.group(1)
+            for nold in (0, 2):
+                fields = []
+                for k, (sname, kind, inner) in enumerate(slots):
+                    if kind == 'plain':
+                        fields.append(z3.BitVec('arch', 32))
+                    elif kind in ('opt', 'optbox'):
+                        fields.append(Enum('Option', z3.BitVec('set_' + sname, 64), {'Some': (Opaque(('old', sname)),), 'None': ()}, {0: 'None', 1: 'Some'}))
+                    else:
+                        fields.append(Agg('Vec', (tuple(Opaque(('old', sname, j)) for j in range(nold)),)))
+                mem = fresh_mem()
+                argaddr = z3.BitVec('arg_box', 64)
+                arg = Fat(argaddr, z3.BitVec('arg_meta', 64)) if setter == 'add_custom_tag' else Opaque('ARG')
+                st = State(z3.BoolVal(True), mem)
+                before = tuple(fields)
+                try:
+                    outs = list(eng.run(f, [Agg('Builder', before), arg], {}, st))
+                except Unsupported as e:
+                    res['inconclusive'].append(f'mirse:{crate} setter {setter}: {e}')
+                    break
+                for kind_, val, pst in outs:
+                    if kind_ == 'panic':
+                        if setter == 'add_custom_tag':
+                            # only non-custom type numbers may be refused
+                            ty = rd32(mem, argaddr)
+                            r, mm = q.check(f'{setter}: panic only for a non-custom type', pst.pc, z3.UGT(ty, 21))
+                            if r == z3.sat:
+                                res['violations'].append({'harness': f'mirse:{crate}_setters', 'kind': 'verif', 'desc': f'{setter} panics for a custom tag type', 'loc': crate + '/src/builder.rs', 'replay': None})
+                            continue
+                        res['violations'].append({'harness': f'mirse:{crate}_setters', 'kind': 'panic', 'desc': f'{setter} panics: {val}', 'loc': crate + '/src/builder.rs', 'replay': None})
+                        continue
+                    after = val.fields
+                    changed = [k for k in range(len(slots)) if after[k] is not before[k]]
+                    ok = len(changed) == 1
+                    if ok:
+                        k = changed[0]
+                        skind = slots[k][1]
+                        if skind in ('opt', 'optbox'):
+                            a = after[k]
+                            ok = isinstance(a, Enum) and a.disc == 'Some' and a.payload['Some'][0] is arg
+                        elif skind == 'vec':
+                            a = after[k].fields[0]
+                            ok = a[:-1] == before[k].fields[0] and a[-1] is arg
+                        else:
+                            ok = False
+                    q.n += 1
+                    q.nontrivial += 1
+                    if not ok:
+                        res['violations'].append({'harness': f'mirse:{crate}_setters', 'kind': 'verif', 'loc': crate + '/src/builder.rs', 'replay': None,
+                                                  'desc': f'setter {setter} does not store its argument in exactly one slot (changed slots: {[slots[k][0] for k in changed]})'})
+                checked.append(setter)
+        res['queries'] = q.n + eng.nq
+        res['nontrivial'] = q.nontrivial
+        res['solver_s'] = round(q.t + eng.solver_s, 2)
+        res['sample'].update({'setters_encoded': sorted(set(checked)), 'functions_encoded': sorted(short(x) for x in eng.encoded)})
+        # setter violations are structural facts about straight-line MIR; the replay file records the finding itself
+        for v in res['violations']:
+            if v.get('replay') is None:
+                v['replay'] = write_replay(prop, f'{crate}_setters', v['kind'], v['desc'], 'none', '', {'note': 'structural: see desc'})
+        return res
+    return run
+
+
 def b_violation(crate, m, slots, discs, lens, kind, desc):
     occ = {}
     for name, d in discs.items():
@@ -608,6 +684,12 @@ def t_enum_loads(prop, tier, seed):
 
 
 TARGETS = [
+    {'name': 'mbi_builder_setters', 'props': ['C06'], 'fn': t_builder_setters('multiboot2'),
+     'encodes': 'every multiboot2::Builder setter (MIR): cmdline, bootloader, add_module, ..., add_custom_tag',
+     'bound': 'arbitrary prior builder state (opaque slot values, Vec slots with 0 and 2 prior elements); add_custom_tag: all 2^32 type numbers'},
+    {'name': 'header_builder_setters', 'props': ['C12'], 'fn': t_builder_setters('multiboot2-header'),
+     'encodes': 'every multiboot2_header::Builder setter (MIR)',
+     'bound': 'arbitrary prior builder state'},
     {'name': 'enum_loads', 'props': ['C04', 'C08'], 'fn': t_enum_loads,
      'encodes': 'multiboot2::FramebufferTag::buffer_type and VBEInfoTag::mode_info (release MIR): validity obligation on every typed load of a field-less enum from tag memory',
      'bound': 'all 256 values of the stored byte; tag address and contents symbolic'},
